@@ -2,7 +2,7 @@ SPECIFICATION Spec
 CONSTANTS
   NF = 2
   MaxLen = 60
-  Kinds = {"mod", "modeonly", "bin", "modebin", "renmode", "del"}
+  Kinds = {"mod", "modeonly", "bin", "modebin", "renmode", "del", "binx"}
   MaxHunks = 2
   MaxBody = 3
   Preamble = TRUE
